@@ -18,7 +18,7 @@ import (
 	"verifharness/ref/secp"
 )
 
-const rule = "a (key, message, chain id, V candidates, tamper) case is non-trivial when the key or R or S has a leading zero byte, or chain id >= 2^31, or a V candidate >= 256 is tried; V sweeps: every V in [0,2^17] for a (key, chain id) pair, each V that reaches curve arithmetic counted as non-trivial; distinct by hash of the case JSON"
+const rule = "a (key, message, chain id, V candidates, tamper) case is non-trivial when the key or R or S has a leading zero byte, or chain id >= 2^31 (every case additionally tries a structured set of V candidates >= 256, which is therefore not part of the rule); histories and concurrent batches always count; V sweeps: every V in [0,2^17] for a (key, chain id) pair, each V that reaches curve arithmetic counted as non-trivial; distinct by hash of the case JSON"
 
 type Case struct {
 	KeyTrim bool     `json:"keyTrim,omitempty"` // hand the key over without its leading zero bytes (minimal big-endian form)
@@ -516,8 +516,7 @@ func classify(c Case) (bool, []string) {
 	}
 	for _, v := range c.Vs {
 		if len(v) > 3 || (len(v) == 3 && v >= "256") {
-			nt = true
-			cl = append(cl, "V-candidates>=256")
+			cl = append(cl, "V-candidates>=256") // every generated case has them: a label, not part of the rule
 			break
 		}
 	}
